@@ -60,5 +60,5 @@ FAMILIES = {
 
 BUDGET = {
     "quick": {"mq": 1500, "topic": 600, "eventlog": 500, "group": 600, "relay": 400, "stream": 300},
-    "thorough": {"mq": 300000, "topic": 80000, "eventlog": 60000, "group": 100000, "relay": 50000, "stream": 30000},
+    "thorough": {"mq": 200000, "topic": 60000, "eventlog": 40000, "group": 60000, "relay": 30000, "stream": 20000},
 }
